@@ -1,7 +1,7 @@
 (* Extraction of the GENERATED definitions (translator validation for C13). ExtrOcamlBasic only. *)
 From Coq Require Import ZArith List Extraction ExtrOcamlBasic.
 From MomoCommon Require Import GenPrelude.
-From C13 Require Gen_Open2N2 Gen_OpenN1 Gen_Open8 Gen_BucketBase Gen_Open2N2_ops Gen_OpenN1_ops Gen_HSAdd ProbeSeq OpenTable BucketOps HSAddRefine OpenInstances.
+From C13 Require Gen_Open2N2 Gen_OpenN1 Gen_Open8 Gen_BucketBase Gen_Open2N2_ops Gen_OpenN1_ops Gen_HSAdd ProbeSeq OpenTable BucketOps HSAddRefine HSFindRefine Gen_HSFindIn OpenInstances.
 Separate Extraction
   Gen_Open2N2.pvGetMaxProbe Gen_Open2N2.UpdateMaxProbe Gen_Open2N2.pvGetCount Gen_Open2N2.GetNextBucketIndex
   Gen_OpenN1.GetMaxProbe Gen_OpenN1.UpdateMaxProbe Gen_OpenN1.pvGetCount
@@ -12,4 +12,4 @@ Separate Extraction
   OpenTable.add OpenTable.remove OpenTable.find OpenTable.bk OpenTable.bd
   BucketOps.O2.empty BucketOps.O2.cnt BucketOps.O2.dec BucketOps.O2.remP BucketOps.N1.cnt BucketOps.N1.remP
   OpenInstances.o2_add OpenInstances.o2_find OpenInstances.o2_empty OpenInstances.n1_add OpenInstances.n1_find OpenInstances.n1_empty
-  OpenInstances.n1_dec OpenInstances.updN OpenInstances.o2_gen_add OpenInstances.n1_gen_add.
+  OpenInstances.n1_dec OpenInstances.updN OpenInstances.o2_gen_add OpenInstances.n1_gen_add OpenInstances.o2_gen_find OpenInstances.n1_gen_find.
